@@ -301,8 +301,13 @@ func main() {
 		lineSets = append(lineSets, []string{l12, l40, l40[:38] + "99", l5})
 	}
 	var scns []*vrt.Scenario
-	scns = append(scns, &vrt.Scenario{Name: "writer", Cfg: vrt.Config{}, Model: vrt.CostDelay, Bound: 0,
-		New: func() vrt.Exec { return &writerExec{depth: wdepth, sizes: []int{1, 2, 3, 4, 8}} }})
+	// one scenario per buffer size: they run in separate worker processes (every NewWriter registers
+	// metrics that the metrics library never releases)
+	for _, size := range []int{1, 2, 3, 4, 8} {
+		size := size
+		scns = append(scns, &vrt.Scenario{Name: fmt.Sprintf("writer size=%d", size), Cfg: vrt.Config{}, Model: vrt.CostDelay, Bound: 0,
+			New: func() vrt.Exec { return &writerExec{depth: wdepth, sizes: []int{size}} }})
+	}
 	for _, ls := range lineSets {
 		for _, iobuf := range []int{1, 8, 16, 64} {
 			for _, connbuf := range []int{1, 2} {
